@@ -413,6 +413,11 @@ class PathEval:
                 val = st.fresh_atom('min', min(l0, l1), min(h0, h1))
             else:
                 val = st.fresh_atom('max', max(l0, l1), max(h0, h1))
+        if val is None and last in ('from', 'into') and len(args) == 1 and isinstance(args[0], Lin) and int_range(dty) and \
+                ('convert::From' in name or 'convert::Into' in name):
+            # integer From/Into exists only between types where it is lossless; checked like a cast all the same
+            self.oblige(st, 'cast', pos, args[0], dty, '`%s::from` conversion' % dty)
+            val = args[0]
         if val is None and last == 'get' and 'NonZero' in name and len(args) == 1 and isinstance(args[0], tuple) and args[0][0] == 'opaque' \
                 and args[0][1] and args[0][1][0] not in self.borrowed:
             # NonZero::get of the same unmodified field is the same number
